@@ -108,7 +108,9 @@ static void prepare(wcall_t *k) {
     }
     if (sp) {
         long lim = k->srclim < 0 || k->srclim > WIN ? WIN : k->srclim;
-        long got = safe_read(sp, buf, lim * w) / w;
+        long got;
+        if (k->src_is_str && lim < 1) lim = 1;        /* the first element of a string source is looked at even with a zero count */
+        got = safe_read(sp, buf, lim * w) / w;
         if (k->src_is_str) {
             for (i = 0; i < got; i++) if (get_el(buf + i * w, w) == 0) { got = i + 1; break; }
             swin = got;
@@ -316,3 +318,115 @@ extern errno_t __real__strnset_s_chk(char *dest, rsize_t dmax, int value, rsize_
 errno_t __wrap__strnset_s_chk(char *dest, rsize_t dmax, int value, rsize_t n, const size_t destbos) {
     errno_t rc; BEGIN("strnset_s", 1); k.dest = dest; k.dbos = ABOS(destbos, 1); k.dmax = ASZ(dmax, STRMAX); k.c = value; k.n = ASZ(n, STRMAX);
     RUN(rc = __real__strnset_s_chk(dest, dmax, value, n, destbos)); emit(&k, rc, -1, -1, h0); return rc; }
+
+/* ---- read-only queries (C10, C02, C05).  Out-parameters: a sentinel is planted so that "left untouched" can be told
+ *      from "set"; the caller's previous value is put back when the library did not store anything. ---- */
+#define SENT_I (-7777)
+#define SENT_Z ((rsize_t)7777)
+static char q_untouched[8];
+#define PLANT(p, T, S) T q_old = 0; if (p) { q_old = *(p); *(p) = (S); }
+#define HARVEST_I(p) long q_o1 = -1; if (p) { q_o1 = (long)*(p); if (*(p) == SENT_I) *(p) = q_old; }
+#define HARVEST_Z(p) long q_o1 = -1; if (p) { q_o1 = (long)*(p); if (*(p) == SENT_Z) *(p) = q_old; }
+#define HARVEST_P(p, PT) long q_ret = -1; if (p) { q_ret = ((void *)*(p) == (void *)q_untouched) ? -3 : AIDX(&k, *(p)); if ((void *)*(p) == (void *)q_untouched) *(p) = q_old; }
+
+/* (dest, dmax, src, int *resultp, destbos[, srcbos]) */
+#define WRAP_CMP(NAME, HAS_SBOS, ISSTR) \
+extern errno_t __real__##NAME##_chk(const char *dest, rsize_t dmax, const char *src, int *resultp, const size_t destbos HAS_SBOS(, const size_t srcbos)); \
+errno_t __wrap__##NAME##_chk(const char *dest, rsize_t dmax, const char *src, int *resultp, const size_t destbos HAS_SBOS(, const size_t srcbos)) { \
+    errno_t rc; BEGIN(#NAME, 1); k.dest = dest; k.dmax = ASZ(dmax, STRMAX); k.src = src; k.dbos = ABOS(destbos, 1); HAS_SBOS(k.sbos = ABOS(srcbos, 1);) \
+    k.src_is_str = ISSTR; k.srclim = k.dmax < 0 ? 8 : k.dmax; k.flags = resultp ? 0 : 1; \
+    { PLANT(resultp, int, SENT_I) RUN(rc = __real__##NAME##_chk(dest, dmax, src, resultp, destbos HAS_SBOS(, srcbos))); { HARVEST_I(resultp) emit(&k, rc, -1, q_o1, h0); } } return rc; }
+#define YES(...) __VA_ARGS__
+#define NO(...)
+WRAP_CMP(strcmp_s, YES, 1)
+WRAP_CMP(strcasecmp_s, NO, 1)
+WRAP_CMP(strcmpfld_s, NO, 0)
+
+/* (dest, dmax, src, rsize_t *resultp, destbos) */
+#define WRAP_IDX(NAME) \
+extern errno_t __real__##NAME##_chk(const char *dest, rsize_t dmax, const char *src, rsize_t *resultp, const size_t destbos); \
+errno_t __wrap__##NAME##_chk(const char *dest, rsize_t dmax, const char *src, rsize_t *resultp, const size_t destbos) { \
+    errno_t rc; BEGIN(#NAME, 1); k.dest = dest; k.dmax = ASZ(dmax, STRMAX); k.src = src; k.dbos = ABOS(destbos, 1); \
+    k.src_is_str = 1; k.srclim = k.dmax < 0 ? 8 : k.dmax; k.flags = resultp ? 0 : 1; \
+    { PLANT(resultp, rsize_t, SENT_Z) RUN(rc = __real__##NAME##_chk(dest, dmax, src, resultp, destbos)); { HARVEST_Z(resultp) emit(&k, rc, -1, q_o1, h0); } } return rc; }
+WRAP_IDX(strfirstdiff_s)
+WRAP_IDX(strfirstsame_s)
+WRAP_IDX(strlastdiff_s)
+WRAP_IDX(strlastsame_s)
+
+extern errno_t __real__strprefix_s_chk(const char *dest, rsize_t dmax, const char *src, const size_t destbos);
+errno_t __wrap__strprefix_s_chk(const char *dest, rsize_t dmax, const char *src, const size_t destbos) {
+    errno_t rc; BEGIN("strprefix_s", 1); k.dest = dest; k.dmax = ASZ(dmax, STRMAX); k.src = src; k.dbos = ABOS(destbos, 1); k.src_is_str = 1; k.srclim = k.dmax < 0 ? 8 : k.dmax;
+    RUN(rc = __real__strprefix_s_chk(dest, dmax, src, destbos)); emit(&k, rc, -1, -1, h0); return rc; }
+
+/* (dest, dmax, src, slen, T **p, destbos, srcbos) */
+#define WRAP_FIND(NAME, T, ST, W, LIM) \
+extern errno_t __real__##NAME##_chk(T *dest, rsize_t dmax, ST *src, rsize_t slen, T **p, const size_t destbos, const size_t srcbos); \
+errno_t __wrap__##NAME##_chk(T *dest, rsize_t dmax, ST *src, rsize_t slen, T **p, const size_t destbos, const size_t srcbos) { \
+    errno_t rc; BEGIN(#NAME, W); k.dest = dest; k.dmax = ASZ(dmax, LIM); k.src = src; k.slen = ASZ(slen, LIM); k.dbos = ABOS(destbos, W); k.sbos = ABOS(srcbos, W); \
+    k.src_is_str = 1; k.srclim = k.slen < 0 ? 8 : k.slen; k.flags = p ? 0 : 1; \
+    { PLANT(p, T *, (T *)(void *)q_untouched) RUN(rc = __real__##NAME##_chk(dest, dmax, src, slen, p, destbos, srcbos)); { HARVEST_P(p, T) emit(&k, rc, q_ret, -1, h0); } } return rc; }
+WRAP_FIND(strstr_s, char, const char, 1, STRMAX)
+WRAP_FIND(strcasestr_s, char, const char, 1, STRMAX)
+WRAP_FIND(strpbrk_s, char, char, 1, STRMAX)
+WRAP_FIND(wcsstr_s, wchar_t, const wchar_t, 4, WSTRMAX)
+
+#define WRAP_SPAN(NAME) \
+extern errno_t __real__##NAME##_chk(const char *dest, rsize_t dmax, const char *src, rsize_t slen, rsize_t *countp, const size_t destbos, const size_t srcbos); \
+errno_t __wrap__##NAME##_chk(const char *dest, rsize_t dmax, const char *src, rsize_t slen, rsize_t *countp, const size_t destbos, const size_t srcbos) { \
+    errno_t rc; BEGIN(#NAME, 1); k.dest = dest; k.dmax = ASZ(dmax, STRMAX); k.src = src; k.slen = ASZ(slen, STRMAX); k.dbos = ABOS(destbos, 1); k.sbos = ABOS(srcbos, 1); \
+    k.src_is_str = 1; k.srclim = k.slen < 0 ? 8 : k.slen; k.flags = countp ? 0 : 1; \
+    { PLANT(countp, rsize_t, SENT_Z) RUN(rc = __real__##NAME##_chk(dest, dmax, src, slen, countp, destbos, srcbos)); { HARVEST_Z(countp) emit(&k, rc, -1, q_o1, h0); } } return rc; }
+WRAP_SPAN(strspn_s)
+WRAP_SPAN(strcspn_s)
+
+/* (dest, dmax, ch, T **p, destbos) */
+#define WRAP_CHR(NAME, DT, CT, PT, ABSDMAX) \
+extern errno_t __real__##NAME##_chk(DT *dest, rsize_t dmax, CT ch, PT **p, const size_t destbos); \
+errno_t __wrap__##NAME##_chk(DT *dest, rsize_t dmax, CT ch, PT **p, const size_t destbos) { \
+    errno_t rc; BEGIN(#NAME, 1); k.dest = dest; k.dmax = ABSDMAX; k.dbos = ABOS(destbos, 1); k.c = (long)ch; k.flags = p ? 0 : 1; \
+    { PLANT(p, PT *, (PT *)(void *)q_untouched) RUN(rc = __real__##NAME##_chk(dest, dmax, ch, p, destbos)); { HARVEST_P(p, PT) emit(&k, rc, q_ret, -1, h0); } } return rc; }
+WRAP_CHR(strchr_s, const char, const int, char, ASZ(dmax, STRMAX))
+WRAP_CHR(strrchr_s, const char, const int, char, ASZ(dmax, STRMAX))
+WRAP_CHR(strfirstchar_s, char, char, char, ASZ(dmax, STRMAX))
+WRAP_CHR(strlastchar_s, char, char, char, ASZ(dmax, STRMAX))
+WRAP_CHR(memchr_s, const void, const int, void, (dmax > MEMMAX ? -1 : (long)dmax))
+WRAP_CHR(memrchr_s, const void, const int, void, (dmax > MEMMAX ? -1 : (long)dmax))
+
+#define WRAP_BOOL(NAME) \
+extern bool __real__##NAME##_chk(const char *dest, rsize_t dmax, const size_t destbos); \
+bool __wrap__##NAME##_chk(const char *dest, rsize_t dmax, const size_t destbos) { \
+    bool rc; BEGIN(#NAME, 1); k.dest = dest; k.dmax = ASZ(dmax, STRMAX); k.dbos = ABOS(destbos, 1); \
+    RUN(rc = __real__##NAME##_chk(dest, dmax, destbos)); emit(&k, -7777, -1, (long)rc, h0); return rc; }
+WRAP_BOOL(strisalphanumeric_s) WRAP_BOOL(strisascii_s) WRAP_BOOL(strisdigit_s) WRAP_BOOL(strishex_s)
+WRAP_BOOL(strislowercase_s) WRAP_BOOL(strismixedcase_s) WRAP_BOOL(strispassword_s) WRAP_BOOL(strisuppercase_s)
+
+extern rsize_t __real__strnlen_s_chk(const char *str, rsize_t smax, size_t strbos);
+rsize_t __wrap__strnlen_s_chk(const char *str, rsize_t smax, size_t strbos) {
+    rsize_t r; BEGIN("strnlen_s", 1); k.dest = str; k.dmax = ASZ(smax, STRMAX); k.dbos = ABOS(strbos, 1);
+    RUN(r = __real__strnlen_s_chk(str, smax, strbos)); emit(&k, -7777, -1, (long)r, h0); return r; }
+extern size_t __real__wcsnlen_s_chk(const wchar_t *str, size_t smax, size_t srcbos);
+size_t __wrap__wcsnlen_s_chk(const wchar_t *str, size_t smax, size_t srcbos) {
+    size_t r; BEGIN("wcsnlen_s", 4); k.dest = str; k.dmax = ASZ(smax, WSTRMAX); k.dbos = ABOS(srcbos, 4);
+    if (BADBOS) { nskip++; return __real__wcsnlen_s_chk(str, smax, srcbos); }
+    RUN(r = __real__wcsnlen_s_chk(str, smax, srcbos)); emit(&k, -7777, -1, (long)r, h0); return r; }
+
+/* memcmp family: memcmp_s dmax in bytes (= elements), the 16/32/w variants in elements */
+#define WRAP_MCMP(NAME, T, W) \
+extern errno_t __real__##NAME##_chk(const T *dest, rsize_t dmax, const T *src, rsize_t slen, int *diff, const size_t destbos, const size_t srcbos); \
+errno_t __wrap__##NAME##_chk(const T *dest, rsize_t dmax, const T *src, rsize_t slen, int *diff, const size_t destbos, const size_t srcbos) { \
+    errno_t rc; BEGIN(#NAME, W); k.dest = dest; k.src = src; k.dbos = ABOS(destbos, W); k.sbos = ABOS(srcbos, W); \
+    k.dmax = dmax > MEMMAX / W ? -1 : (long)dmax; k.slen = slen > MEMMAX / W ? -1 : (long)slen; k.srclim = k.slen; k.flags = diff ? 0 : 1; \
+    if (BADBOS) { nskip++; return __real__##NAME##_chk(dest, dmax, src, slen, diff, destbos, srcbos); } \
+    { PLANT(diff, int, SENT_I) RUN(rc = __real__##NAME##_chk(dest, dmax, src, slen, diff, destbos, srcbos)); { HARVEST_I(diff) emit(&k, rc, -1, q_o1, h0); } } return rc; }
+WRAP_MCMP(memcmp_s, void, 1)
+WRAP_MCMP(memcmp16_s, uint16_t, 2)
+WRAP_MCMP(memcmp32_s, uint32_t, 4)
+WRAP_MCMP(wmemcmp_s, wchar_t, 4)
+
+extern errno_t __real__wcscmp_s_chk(const wchar_t *dest, rsize_t dmax, const wchar_t *src, rsize_t smax, int *resultp, const size_t destbos, const size_t srcbos);
+errno_t __wrap__wcscmp_s_chk(const wchar_t *dest, rsize_t dmax, const wchar_t *src, rsize_t smax, int *resultp, const size_t destbos, const size_t srcbos) {
+    errno_t rc; BEGIN("wcscmp_s", 4); k.dest = dest; k.dmax = ASZ(dmax, WSTRMAX); k.src = src; k.slen = ASZ(smax, WSTRMAX); k.dbos = ABOS(destbos, 4); k.sbos = ABOS(srcbos, 4);
+    k.src_is_str = 1; k.srclim = k.slen < 0 ? 8 : k.slen; k.flags = resultp ? 0 : 1;
+    if (BADBOS) { nskip++; return __real__wcscmp_s_chk(dest, dmax, src, smax, resultp, destbos, srcbos); }
+    { PLANT(resultp, int, SENT_I) RUN(rc = __real__wcscmp_s_chk(dest, dmax, src, smax, resultp, destbos, srcbos)); { HARVEST_I(resultp) emit(&k, rc, -1, q_o1, h0); } } return rc; }
